@@ -515,6 +515,52 @@ theorem Diagram.caps_wf {left right : Ty} {d : Diagram} (h : Diagram.caps left r
   · cases h
   · exact cupsLoop_wf (Diagram.id_wf _) h
 
+/-! ### Transposes -/
+
+theorem tensor3_wf {a b c : Except Err Diagram} {d : Diagram}
+    (ha : ∀ x, a = .ok x → x.WF) (hb : ∀ x, b = .ok x → x.WF) (hc : ∀ x, c = .ok x → x.WF)
+    (h : tensor3 a b c = .ok d) : d.WF := by
+  unfold tensor3 at h
+  split at h
+  · rename_i x y z
+    split at h
+    · cases h
+    · rename_i xy hxy
+      exact Diagram.tensor_wf (Diagram.tensor_wf (ha x rfl) (hb y rfl) hxy) (hc z rfl) h
+  all_goals cases h
+
+theorem then3_wf {a b c : Except Err Diagram} {d : Diagram}
+    (ha : ∀ x, a = .ok x → x.WF) (hb : ∀ x, b = .ok x → x.WF) (hc : ∀ x, c = .ok x → x.WF)
+    (h : then3 a b c = .ok d) : d.WF := by
+  unfold then3 at h
+  split at h
+  · rename_i x y z
+    split at h
+    · cases h
+    · rename_i xy hxy
+      exact Diagram.then_wf (Diagram.then_wf (ha x rfl) (hb y rfl) hxy) (hc z rfl) h
+  all_goals cases h
+
+theorem ok_wf_of {d : Diagram} (hd : d.WF) : ∀ x, (Except.ok d : Except Err Diagram) = .ok x → x.WF := by
+  intro x hx; cases hx; exact hd
+
+theorem Diagram.transpose_wf {d d' : Diagram} {left : Bool} (hd : d.WF)
+    (h : d.transpose left = .ok d') : d'.WF := by
+  unfold Diagram.transpose at h
+  have hid : ∀ t, ∀ x, (Except.ok (Diagram.id t) : Except Err Diagram) = .ok x → x.WF :=
+    fun t => ok_wf_of (Diagram.id_wf t)
+  have hcaps : ∀ l r, ∀ x, Diagram.caps l r = .ok x → x.WF := fun l r x hx => Diagram.caps_wf hx
+  have hcups : ∀ l r, ∀ x, Diagram.cups l r = .ok x → x.WF := fun l r x hx => Diagram.cups_wf hx
+  split at h
+  · exact then3_wf
+      (fun x hx => tensor3_wf (hid _) (hcaps _ _) (hid _) hx)
+      (fun x hx => tensor3_wf (hid _) (ok_wf_of hd) (hid _) hx)
+      (fun x hx => tensor3_wf (hcups _ _) (hid _) (hid _) hx) h
+  · exact then3_wf
+      (fun x hx => tensor3_wf (hcaps _ _) (hid _) (hid _) hx)
+      (fun x hx => tensor3_wf (hid _) (ok_wf_of hd) (hid _) hx)
+      (fun x hx => tensor3_wf (hid _) (hcups _ _) (hid _) hx) h
+
 /-! ### Closure: every expression of the op language evaluates to a well-typed diagram -/
 
 theorem Expr.eval_wf (e : Expr) {d : Diagram} (h : e.eval = .ok d) : d.WF := by
@@ -574,5 +620,10 @@ theorem Expr.eval_wf (e : Expr) {d : Diagram} (h : e.eval = .ok d) : d.WF := by
   | perm p dom => exact (Diagram.permutation_props h).1
   | cups l r => exact Diagram.cups_wf h
   | caps l r => exact Diagram.caps_wf h
+  | transpose a left iha =>
+    simp only [Expr.eval] at h
+    split at h
+    · cases h
+    · rename_i x hx; exact Diagram.transpose_wf (iha hx) h
 
 end DV
